@@ -395,6 +395,15 @@ def benign(pid, op, impl, model):
         if f in ("inferdoc", "inferv", "lex", "cst", "sourcesdoc", "supersetchk", "superset") \
                 and impl not in ("panic", "timeout", "crash") and model != "panic":
             return True
+    if pid == "C12":
+        # C12's theorems are upper bounds on the model's call counts; they transfer to the code whenever the
+        # code makes at most as many calls as the model (and, for is_subset, gives the same answer). A
+        # refactoring that saves calls is not a broken obligation; one that adds calls is.
+        f = op.split("\t", 1)[0]
+        if f in ("ticks_subset", "ticks_merger", "ticks_infer", "ticks_inferv"):
+            ai, am = impl.split(" "), model.split(" ")
+            if len(ai) == len(am) and ai[:-1] == am[:-1] and ai[-1].isdigit() and am[-1].isdigit():
+                return int(ai[-1]) <= int(am[-1])
     if pid == "C02":
         f = op.split("\t", 1)[0]
         if f in ("subset", "superset") and impl == "false" and model == "true":
